@@ -723,6 +723,7 @@ fn main() {
         "body": String::from_utf8_lossy(&body[..body.len().min(400)]), "body_len": body.len(),
         "class": q, "answer": resp_lit, "alive": alive,
         "no_answer_detail": reply.as_ref().err().map(|e| format!("{e:?}")),
+        "reason": reply.as_ref().ok().and_then(|r| r.json()).and_then(|j| j.pointer("/error/reason").and_then(|v| v.as_str()).map(|s| s.chars().take(300).collect::<String>())),
         "nt": failure,
       }));
       if !alive {
